@@ -11,6 +11,27 @@ class LibBase:
     def call_func(self, ex, fv, args, st, node):
         return None
 
+    def inline_accessor(self, ex, name, args, kw, st, lineno):
+        """a method of the class under verification that has no contract, takes no argument and whose body is a single
+        `return <expression>` (after docstrings and prints are dropped) is evaluated in place: mechanical inlining of a
+        side-effect-free accessor, nothing else is ever inlined.  -> outcomes or None"""
+        import ast
+        from pyvc import extract
+        if args or kw:
+            return None
+        try:
+            prof = self.profile(ex.ctx.cls)
+            node = extract.load(prof["file"]).function(prof["cls"], name)
+        except Exception:
+            return None
+        body = [b for b in node.body if not (isinstance(b, ast.Pass) or (isinstance(b, ast.Expr) and isinstance(b.value, ast.Constant)))]
+        if len(node.args.args) != 1 or len(body) != 1 or not isinstance(body[0], ast.Return) or body[0].value is None:
+            return None
+        for n in ast.walk(body[0].value):
+            if isinstance(n, (ast.Yield, ast.YieldFrom, ast.Await, ast.NamedExpr, ast.Lambda)):
+                return None
+        return ex.eval(body[0].value, st)
+
     # --- class/schema queries
     def is_method(self, cls, attr):
         return attr in self.contracts.get(cls, {})
